@@ -17,9 +17,9 @@ import (
 func init() {
 	register(&explore.Prop{
 		ID: "C12", Level: levelFE, Explorer: "E3 environment-answer enumerator",
-		Rule: "workloads = every list of 1..2 segments over a small kinds alphabet with every deletion set (public Merge(...).WriteTo) + a 130-document two-block workload with doc values + Segment.WriteTo of built, loaded-from-memory and loaded-from-file segments; for each workload the destination writer fails (fail-stop) at EVERY byte offset k in [0,len], in two variants (accepts exactly k bytes / rejects the crossing write whole), x merge buffer sizes {0 (default),1,2,3,7,16,64,4096,1<<20}; cancellation: close channel closed before the call and closed at the moment the writer has received t bytes for EVERY t in [0,len] (buffer size 1 makes every write a boundary; also 16 and 4096), and - on the instrumented build - closed immediately before EVERY poll of the channel (every `select` the merge executes, by index); " +
+		Rule: "workloads = every list of 1..2 segments over a small kinds alphabet with every deletion set (public Merge(...).WriteTo) + a 130-document two-block workload with doc values + Segment.WriteTo of built, loaded-from-memory and loaded-from-file segments; for each workload the destination writer fails at EVERY byte offset k in [0,len], in four variants (accepts exactly k bytes / rejects the crossing write whole) x (fail-stop: every later write fails too / transient: only that one write fails), x merge buffer sizes {0 (default),1,2,3,7,16,64,4096,1<<20}; cancellation: close channel closed before the call and closed at the moment the writer has received t bytes for EVERY t in [0,len] (buffer size 1 makes every write a boundary; also 16 and 4096), and - on the instrumented build - closed immediately before EVERY poll of the channel (every `select` the merge executes, by index); " +
 			"oracle: writer reported an error => non-nil error; closed => ErrClosed or (nil error and bytes == fault-free file and n == len); one deviation per run, runs go to completion; distinct = (workload, fault kind, k, buffer size); non-trivial = the injected fault was actually hit",
-		Assumptions: []string{"bounded workloads (DESIGN.md 5 C12)", "fail-stop writer model: after the first error every later Write fails too", "cancellation from another goroutine at every scheduling point is explored separately (C12 thorough, E4) when the instrumented build is available"},
+		Assumptions: []string{"bounded workloads (DESIGN.md 5 C12)", "writer models: fail-stop and single transient failure; a writer that returns n < len(p) with a nil error (a violation of the io.Writer contract) is not modelled", "cancellation from another goroutine at every scheduling point is explored separately (C12 thorough, E4) when the instrumented build is available"},
 		Budget:      qBudget, Run: runC12,
 	})
 }
@@ -32,7 +32,11 @@ type faultWriter struct {
 	buf     []byte
 	failAt  int
 	whole   bool
-	failed  bool
+	// transient: only the one write that crosses failAt fails; every later write is accepted again
+	// (otherwise fail-stop: after the first error every later write fails too)
+	transient bool
+	tripped   bool
+	failed    bool
 	hits    int
 	closeAt int // -1: never; close ch when total accepted bytes >= closeAt (checked before and after each write)
 	ch      chan struct{}
@@ -52,8 +56,9 @@ func (w *faultWriter) Write(p []byte) (int, error) {
 		w.hits++
 		return 0, errInjected
 	}
-	if w.failAt >= 0 && len(w.buf)+len(p) > w.failAt {
-		w.failed = true
+	if w.failAt >= 0 && !w.tripped && len(w.buf)+len(p) > w.failAt {
+		w.tripped = true
+		w.failed = !w.transient
 		w.hits++
 		n := 0
 		if !w.whole {
@@ -195,7 +200,8 @@ func runC12(c *explore.Ctx) {
 		var idx int64
 		// (1) failing writer at every offset
 		for _, bufSize := range wl.bufSizes {
-			for _, whole := range []bool{false, true} {
+			for variant := 0; variant < 4; variant++ {
+				whole, transient := variant&1 != 0, variant&2 != 0
 				for k := 0; k <= total; k++ {
 					my := idx
 					idx++
@@ -203,9 +209,9 @@ func runC12(c *explore.Ctx) {
 						continue
 					}
 					c.Eval()
-					w := &faultWriter{failAt: k, whole: whole, closeAt: -1}
+					w := &faultWriter{failAt: k, whole: whole, transient: transient, closeAt: -1}
 					n, err := wl.run(w, nil, bufSize)
-					cas := fmt.Sprintf("%s: writer fails at byte %d of %d (whole=%v) bufSize=%d", wl.name, k, total, whole, bufSize)
+					cas := fmt.Sprintf("%s: writer fails at byte %d of %d (whole=%v, transient=%v) bufSize=%d", wl.name, k, total, whole, transient, bufSize)
 					c.Sample(my, func() string { return cas })
 					if w.hits > 0 {
 						c.Nontrivial()
